@@ -234,6 +234,8 @@ def main():
     txt("de_primary_body", visitor_body(primary, "PrimaryBlockVisitor"))
     txt("de_canonical_body", visitor_body(canonical, "CanonicalBlockVisitor"))
     txt("de_eid_body", visitor_body(eid, "EndpointIDVisitor"))
+    txt("adm_refbundle_body", fn_body(adm, "refbundle", r"pub "))
+    txt("bundle_id_body", fn_body(bundle, "id", r"pub "))
     # ---- emit
     lines = ["/- GENERATED by tools/extract.py from /repo/src — do not edit. -/", "namespace Bp7.Extracted", ""]
     for name, kind, v in facts:
